@@ -64,6 +64,7 @@ class Check:
         self.known_hits = []
         self.undecided = []
         self.not_counted = []
+        self.more_of_same = {}
         self.notes = []
         self.findings = [f for f in load_findings().get('findings', []) if f.get('property') == pid]
         self.solver_time = 0.0
@@ -142,6 +143,9 @@ class Check:
                     self.known_hits.append(hit)
                     print(hit)
                 return
+        if any(k == key for k, *_ in self.violations):
+            self.more_of_same[key] = self.more_of_same.get(key, 0) + 1
+            return
         h = hashlib.sha1(key.encode()).hexdigest()[:10]
         path = os.path.join(VERIF, 'replays', self.pid, f"{h}.json")
         replay = dict(replay)
@@ -193,7 +197,7 @@ class Check:
             json.dump(jsonable(ev), f, indent=1)
         for key, text, path, suffix in self.violations:
             print(f"VIOLATION property={self.pid} replay={path}{suffix}")
-            print(f"  {text}")
+            print(f"  {text}" + (f"  (+{self.more_of_same[key]} more with the same key)" if key in self.more_of_same else ''))
         print(f"[{self.pid}] tier={self.tier} obligations={n_ob} discharged={n_pr} "
               f"bounded_evals={sum(b['evaluations'] for b in self.bounded.values())} "
               f"violations={len(self.violations)} known={len(self.known_hits)} undecided={len(self.undecided)} "
